@@ -53,6 +53,12 @@ def _records(draw, *, prefix_strat, uri_strat, pattern_strat, min_records=0, max
             recs[draw(st.integers(0, n - 1))]["prefix_synonyms"].append(x)
         for x in us[n:]:
             recs[draw(st.integers(0, n - 1))]["uri_prefix_synonyms"].append(x)
+        if draw(st.integers(0, 4)) == 0:
+            # a record may list a synonym twice (only different records clash); files must still read back
+            r = draw(st.sampled_from(recs))
+            side = draw(st.sampled_from(["prefix_synonyms", "uri_prefix_synonyms"]))
+            if r[side]:
+                r[side].append(r[side][0])
     return recs
 
 
@@ -68,6 +74,14 @@ def cases(draw, tier="quick", fmt=None):
         pre = st.one_of(S.txt("abAB1._é", min_size=1, max_size=4), st.text(S.UNICODE, min_size=1, max_size=3)).map(lambda s: ("x" + s[1:]) if s.startswith("@") else s)
         uri = st.one_of(S.txt(S.URI_ALPHA, max_size=5), st.text(S.UNICODE, max_size=4))
         case["records"] = draw(_records(prefix_strat=pre, uri_strat=uri, pattern_strat=st.sampled_from(PATTERNS)))
+        recs = case["records"]
+        if len(recs) >= 2 and draw(st.integers(0, 3)) == 0:
+            # a URI prefix that LOOKS like a compact IRI over another term of the same context ('urn' -> ..., 'lsid' -> 'urn:lsid:')
+            i, j = draw(st.integers(0, len(recs) - 1)), draw(st.integers(0, len(recs) - 1))
+            src = draw(st.sampled_from([recs[i]["prefix"], *recs[i]["prefix_synonyms"]]))
+            cand = src + ":" + draw(st.sampled_from(["lsid:", "x/", "", "a#", "/x"]))
+            if i != j and cand not in S.all_uri_prefixes(recs):
+                recs[j]["uri_prefix"] = cand
     else:
         pre = S.txt(PRINTABLE, min_size=0 if fmt == "tsv" else 0, max_size=4)
         uri = st.one_of(S.txt(PRINTABLE, max_size=6), st.sampled_from(["http://purl.obolibrary.org/obo/GO_", "https://example.org/ns#", "http://x/a\\b/"]))
